@@ -199,12 +199,14 @@ class World:
         params = spec["params"]
         ns = {"_I": self.interp, "dataclasses": dataclasses, "__name__": "simworld"}
         sig = []
+        defaults = spec.get("defaults", {})
         for name, aref in params:
+            dflt = f" = {defaults[name]!r}" if name in defaults else ""
             if aref is None:
-                sig.append(name)
+                sig.append(name + dflt.replace(" = ", "="))
             else:
                 ns[f"_A_{name}"] = self.typ(aref)
-                sig.append(f"{name}: _A_{name}")
+                sig.append(f"{name}: _A_{name}{dflt}")
         ret = ""
         if spec.get("ret") is not None:
             ns["_A_ret"] = self.typ(spec["ret"])
@@ -316,6 +318,8 @@ def build_value(v, frame=None, memo=None):
         return Node([build_value(c, frame, memo) for c in v["c"]])
     if t == "arg":
         return frame["args"][v["n"]]
+    if t == "omit":
+        return None
     raise HarnessError(f"unknown value kind {t}")
 
 
@@ -631,8 +635,13 @@ class Interp:
             target = inst.m if kind == "method" else getattr(type(inst), "m")
         pos, kw = [], {}
         kwmode = op.get("kw", 0)
-        for i, (n, a) in enumerate(zip(names, args)):
-            if kwmode == 2 or (kwmode == 1 and i >= len(names) // 2):
+        omitted = False
+        for i, (n, a) in enumerate(zip(names, op["args"])):
+            if a.get("t") == "omit":  # parameter left to its default value
+                omitted = True
+                continue
+            a = args[i]
+            if omitted or kwmode == 2 or (kwmode == 1 and i >= len(names) // 2):
                 kw[n] = a
             else:
                 pos.append(a)
